@@ -654,3 +654,56 @@ func checkC18IgnoredCluster(c *Ctx, n int) {
 		})
 	}
 }
+
+// checkC18OuterWord: behind a command that takes no subcommand, a word that spells a command of an OUTER
+// level (a sibling, its alias, the command itself) is a rest argument for the parser: completion stays
+// in the command (its options and its ancestors', no sibling's), offers no value of the sibling's
+// positional arguments and, the rest being non-empty, no command names.
+func checkC18OuterWord(c *Ctx, n int) {
+	r := c.Rng
+	for i := 0; i < n; i++ {
+		help := &StructDesc{Fields: []FieldDesc{{Name: "Brief", Exported: true, Kind: "v", Ty: "bool", Tag: `long:"brief"`}}}
+		remove := &StructDesc{Fields: []FieldDesc{
+			{Name: "Force", Exported: true, Kind: "v", Ty: "bool", Tag: `long:"force"`},
+			{Name: "Args", Exported: true, Kind: "s", Tag: `positional-args:"yes"`, Sub: &StructDesc{Fields: []FieldDesc{{Name: "Col", Exported: true, Kind: "v", Ty: "c2"}}}}}}
+		root := &StructDesc{Fields: []FieldDesc{
+			{Name: "Verbose", Exported: true, Kind: "v", Ty: "bool", Tag: `long:"verbose"`},
+			{Name: "Help", Exported: true, Kind: "s", Tag: `command:"help"`, Sub: help},
+			{Name: "Remove", Exported: true, Kind: "s", Tag: `command:"remove" alias:"rm"`, Sub: remove}}}
+		cs := &Case{Name: "app", NsDelim: ".", EnvNsDelim: "_"}
+		cs.Build = []BuildOp{{Kind: "addgroup", Target: 1, Short: "Application Options", Struct: root}}
+		word := []string{"remove", "rm", "help"}[r.Intn(3)]
+		last := []string{"--", "", "r", "--f"}[r.Intn(4)]
+		args := []string{"help", word, last}
+		if r.Intn(3) == 0 {
+			args = []string{"help", "--brief", word, last}
+		}
+		cs.Ops = []Op{{Kind: "complete", Args: args}}
+		cs.Description = describeOps(cs)
+		c.RunCases([]*Case{cs}, func(cr *CaseResult) {
+			c.Class(fmt.Sprintf("c18/outer-word word=%s last=%q", word, last))
+			c.Distinct(cs.Description)
+			compL := firstLine(cr.Impl, "COMP ")
+			if compL == "" && firstLine(cr.Impl, "COMP") == "" {
+				return
+			}
+			ws := strings.Fields(compL)
+			var items []string
+			for j := 2; j < len(ws); j += 2 {
+				s, _ := unhx(ws[j])
+				items = append(items, s)
+			}
+			var want []string
+			switch last {
+			case "--":
+				want = []string{"--brief", "--verbose"}
+			}
+			ok := fmt.Sprint(items) == fmt.Sprint(want) || (len(items) == 0 && len(want) == 0)
+			in := map[string]interface{}{"case": cs.Description, "args": args}
+			if !ok {
+				in["case_file"] = c.saveCase(cr)
+			}
+			c.Check("an-outer-command-name-behind-a-command-is-a-rest-argument-for-completion-too", ok, "C18:outer-word", in, fmt.Sprintf("%q", items), fmt.Sprintf("%q", want))
+		})
+	}
+}
